@@ -135,8 +135,10 @@ def template_bytes(L, parts):
         elif isinstance(p, str):
             out.extend(p.encode())
         else:
-            _, name, n = p
+            name, n = p[1], p[2]
             hb = L.sym_bytes(name, n)
+            if len(p) > 3:
+                L.restrict(hb, p[3])
             holes[name] = hb
             out.extend(hb)
     return out, holes
@@ -150,5 +152,12 @@ def show_template(parts):
         elif isinstance(p, str):
             s += p
         else:
-            s += '⟦%d⟧' % p[2]
+            s += hole_text(p)
     return s
+
+
+def hole_text(p):
+    """⟦n⟧ = n free bytes; ⟦n:abc⟧ = n bytes each ranging over the listed byte values"""
+    if len(p) > 3:
+        return '⟦%d:%s⟧' % (p[2], bytes(p[3]).decode('latin1'))
+    return '⟦%d⟧' % p[2]
